@@ -95,7 +95,10 @@ def run(name, props, tier):
         assert rc == 0, out
         for p in props:
             t0 = time.time()
-            rc, out = sh(["./check", p, "--tier", tier], cwd=ROOT, env={"KV_REPO": wt, "KV_ONLY": p.lower()}, timeout=7200)
+            env = {"KV_REPO": wt}
+            if p != "C19":   # C19 re-runs every integrated property under the libm build: needs the full harness
+                env["KV_ONLY"] = p.lower()
+            rc, out = sh(["./check", p, "--tier", tier], cwd=ROOT, env=env, timeout=7200)
             viol = [l for l in out.split("\n") if l.startswith("VIOLATION")]
             last = out.strip().split("\n")[-1] if out.strip() else ""
             replays = []
